@@ -9,7 +9,7 @@ fn is_numeric_looking(s: &str) -> bool {
     // Notes:
     // - Underscores are allowed between digits.
     // - Supports optional sign.
-    // - Supports `0x`/`0o`/`0b` prefixes.
+    // - Supports `0x`/`0o`/`0b` prefixes, in either letter case as the reader accepts them.
     // - Supports decimal scientific notation with or without a dot (e.g. `1e9`, `1.0e9`, `.5`).
     //
     // Compiled once to avoid regex compile cost on hot path.
@@ -19,9 +19,9 @@ fn is_numeric_looking(s: &str) -> bool {
             r"(?x)
             ^[+-]?(?:
                 # Explicit radices
-                0x[0-9A-Fa-f_]+ |
-                0o[0-7_]+       |
-                0b[01_]+        |
+                0[xX][0-9A-Fa-f_]+ |
+                0[oO][0-7_]+       |
+                0[bB][01_]+        |
 
                 # Decimal floats / integers
                 (?:
